@@ -12,8 +12,8 @@ import (
 	"io"
 
 	"golang.org/x/image/riff"
-	"golang.org/x/image/vp8"
-	"golang.org/x/image/vp8l"
+	vp8 "github.com/deepteams/webp/verifharness/ref/xvp8"
+	vp8l "github.com/deepteams/webp/verifharness/ref/xvp8l"
 )
 
 var errInvalidFormat = errors.New("webp: invalid format")
